@@ -1,10 +1,28 @@
-// unit iso_lexer — Verus. Real bodies of isograph_lang_parser::PeekableLexer::{new,
-// parse_token, peek, lexer_span, remaining_token_span, reached_eof, parse_token_of_kind,
-// white_space_span, source} and common_lang_types::Span::{new, with_offset, from_usize,
-// as_usize, join, len, todo_generated}, WithSpan::{new, to_with_embedded_location}
-// (extracted on every run) against an assumed contract for the logos-generated lexer.
-// Serves C07: every span reported by the token cursor lies within the literal, and the
-// semantic tokens are non-overlapping and in increasing order.
+// unit iso_lexer — Verus. Serves C07 (the iso-literal parser never panics on a span and every
+// location it reports is well-formed and inside the literal). Real text, extracted on every run:
+//  * the token cursor: PeekableLexer::{new, parse_token, peek, lexer_span, reached_eof,
+//    remaining_token_span, source, parse_token_of_kind, parse_source_of_kind,
+//    parse_string_key_type, with_embedded_location_result,
+//    with_embedded_location_optional_result, white_space_span}; Span::{new, with_offset,
+//    from_usize, as_usize, join, len, todo_generated}; WithSpan::{new,
+//    to_with_embedded_location}; WithGenericLocation::{new, map};
+//  * the recursive-descent parser (parse_iso_literal.rs): parse_iso_literal,
+//    parse_iso_entrypoint_declaration, parse_iso_client_field_declaration,
+//    parse_client_field_declaration_inner, parse_iso_client_pointer_declaration,
+//    parse_client_pointer_declaration_inner, parse_client_pointer_target_type,
+//    parse_optional_selection_set(_inner), parse_selection, parse_optional_alias_and_field_name,
+//    parse_directives, parse_optional_arguments, parse_argument, parse_object_entry,
+//    parse_variable_definitions, parse_variable_definition, parse_optional_default_value,
+//    parse_delimited_list, parse_comma, parse_line_break, parse_comma_or_line_break,
+//    parse_up_to_three_dots; closure contracts are spliced with //@closure;
+//  * the BLOCKS of four alternatives of parse_non_constant_value / parse_type_annotation
+//    (closures capturing `tokens` mutably are outside Verus), the integer-literal conversion;
+//  * the logos callbacks lex_string / lex_block_string.
+// Assumed (contract only): the logos-generated lexer; the composition glue of
+// parse_non_constant_value and parse_type_annotation (from_control_flow / to_control_flow) and
+// their string / bool alternatives; parse_optional_description (description.rs); the payload
+// types of the AST that are opaque stand-ins (string-key newtypes, directive sets, constant
+// values). Termination of the parser is not proved.
 use vstd::prelude::*;
 use vstd::string::*;
 verus! {
@@ -258,7 +276,6 @@ impl<'source> PeekableLexer<'source> {
 //@fn rel=crates/isograph_lang_parser/src/peekable_lexer.rs name=new within="impl<'source> PeekableLexer<'source>" vis=pub ret=r serves=C07
 //@sub "IsographLangTokenKind::lexer\(source\)" => "lexer_for(source)" n=1
 //@sub "IsographLangTokenKind::EndOfFile\.with_generated_span\(\)" => "WithSpan::new(IsographLangTokenKind::EndOfFile, Span::todo_generated())" n=1
-//@sub "vec!\[\]" => "Vec::new()" n=1
 //@contract
         // iso literals are far below 4 GiB (precondition derived from the u32 spans)
         requires byte_len(source) <= u32::MAX,
@@ -516,11 +533,10 @@ pub open spec fn cursor_fn_ok<'a, T, F: Fn(&mut PeekableLexer<'a>) -> Diagnostic
 //@end
 
 //@fn rel=crates/isograph_lang_parser/src/parse_iso_literal.rs name=parse_delimited_list vis=pub ret=r serves=C07 prefix="#[verifier::exec_allows_no_decreases_clause]"
-//@rw R4
+//@rw R19 R4
 //@hsub "parse_item: impl Fn\(&mut PeekableLexer<'a>\) -> DiagnosticResult<TResult> \+ 'a," => "parse_item: FI,"
 //@hsub "parse_delimiter: impl Fn\(&mut PeekableLexer<'a>\) -> DiagnosticResult<\(\)> \+ 'a," => "parse_delimiter: FD,"
 //@hsub "parse_delimited_list<'a, TResult>" => "parse_delimited_list<'a, TResult, FI: Fn(&mut PeekableLexer<'a>) -> DiagnosticResult<TResult> + 'a, FD: Fn(&mut PeekableLexer<'a>) -> DiagnosticResult<()> + 'a>"
-//@sub "let mut items = vec!\[\];" => "let mut items: Vec<TResult> = Vec::new();" n=1
 //@contract
     requires
         old(tokens).inv(), cursor_fn_ok(parse_item), cursor_fn_ok(parse_delimiter),
@@ -540,8 +556,7 @@ pub open spec fn cursor_fn_ok<'a, T, F: Fn(&mut PeekableLexer<'a>) -> Diagnostic
 
 
 //@fn rel=crates/isograph_lang_parser/src/parse_iso_literal.rs name=parse_optional_selection_set_inner vis=pub ret=r serves=C07 prefix="#[verifier::exec_allows_no_decreases_clause]"
-//@rw R4
-//@sub "let mut selections = vec!\[\];" => "let mut selections: Vec<WithEmbeddedLocation<Selection>> = Vec::new();" n=1
+//@rw R19 R4
 //@contract
     requires old(tokens).inv(),
     ensures
@@ -584,6 +599,14 @@ pub open spec fn cursor_fn_ok<'a, T, F: Fn(&mut PeekableLexer<'a>) -> Diagnostic
         r is Ok ==> final(tokens).progressed(old(tokens)),
 //@end
 
+//@item rel=crates/graphql_lang_types/src/value.rs kind=struct name=NameValuePairInner prefix="pub"
+pub type NameValuePair<TName, TValue> = NameValuePairInner<TName, TValue, EmbeddedLocation>;
+#[derive(Clone, Copy)] pub struct StringLiteralValue(pub StringKey);
+impl From<StringKey> for StringLiteralValue { #[verifier::external_body] fn from(k: StringKey) -> Self { StringLiteralValue(k) } }
+#[derive(Clone, Copy)] pub struct FloatValue(pub u64);
+#[derive(Clone, Copy)] pub struct EnumLiteralValue(pub StringKey);
+//@item rel=crates/isograph_lang_types/src/declarations/selection_argument.rs kind=enum name=NonConstantValueInner prefix="pub"
+pub type NonConstantValue = NonConstantValueInner<EmbeddedLocation>;
 /// parse_non_constant_value: its alternatives are closures capturing `tokens` mutably (outside
 /// Verus); contract assumed for the composition, the alternatives' blocks are checked below
 #[verifier::external_body]
@@ -608,9 +631,8 @@ pub fn parse_non_constant_value(tokens: &mut PeekableLexer<'_>) -> (r: Diagnosti
 //@end
 
 //@fn rel=crates/isograph_lang_parser/src/parse_iso_literal.rs name=parse_optional_arguments vis=pub ret=r serves=C07
-//@rw R4
+//@rw R19 R4
 //@hsub "tokens: &mut PeekableLexer," => "tokens: &mut PeekableLexer<'_>,"
-//@sub "Ok\(vec!\[\]\)" => "Ok(Vec::new())" n=1
 //@contract
     requires old(tokens).inv(),
     ensures
@@ -618,8 +640,6 @@ pub fn parse_non_constant_value(tokens: &mut PeekableLexer<'_>) -> (r: Diagnosti
         final(tokens).same_literal(old(tokens)), final(tokens).monotone(old(tokens)),
 //@end
 
-//@item rel=crates/graphql_lang_types/src/value.rs kind=struct name=NameValuePairInner prefix="pub"
-pub type NameValuePair<TName, TValue> = NameValuePairInner<TName, TValue, EmbeddedLocation>;
 //@fn rel=crates/isograph_lang_parser/src/parse_iso_literal.rs name=parse_object_entry vis=pub ret=r serves=C07
 //@rw R4
 //@hsub "tokens: &mut PeekableLexer," => "tokens: &mut PeekableLexer<'_>,"
@@ -632,9 +652,8 @@ pub type NameValuePair<TName, TValue> = NameValuePairInner<TName, TValue, Embedd
 //@end
 
 //@fn rel=crates/isograph_lang_parser/src/parse_iso_literal.rs name=parse_directives vis=pub ret=r serves=C07 prefix="#[verifier::exec_allows_no_decreases_clause]"
-//@rw R16 R4
+//@rw R19 R16 R4
 //@hsub "tokens: &mut PeekableLexer," => "tokens: &mut PeekableLexer<'_>,"
-//@sub "let mut directives = vec!\[\];" => "let mut directives: Vec<WithEmbeddedLocation<IsographFieldDirective>> = Vec::new();" n=1
 //@contract
     requires old(tokens).inv(),
     ensures
@@ -675,8 +694,10 @@ pub type NameValuePair<TName, TValue> = NameValuePairInner<TName, TValue, Embedd
 impl From<StringKey> for VariableName { #[verifier::external_body] fn from(k: StringKey) -> Self { VariableName(k) } }
 #[derive(Clone, Copy)] pub struct VariableNameWrapper(pub VariableName);
 impl From<VariableName> for VariableNameWrapper { #[verifier::external_body] fn from(k: VariableName) -> Self { VariableNameWrapper(k) } }
-#[verifier::external_body]
-pub struct GraphQLTypeAnnotation { p: core::marker::PhantomData<u8> }
+//@item rel=crates/graphql_lang_types/src/graphql_type_annotation.rs kind=enum name=GraphQLTypeAnnotation prefix="pub"
+//@item rel=crates/graphql_lang_types/src/graphql_type_annotation.rs kind=enum name=GraphQLNonNullTypeAnnotation prefix="pub"
+//@item rel=crates/graphql_lang_types/src/graphql_type_annotation.rs kind=struct name=GraphQLNamedTypeAnnotation prefix="pub"
+//@item rel=crates/graphql_lang_types/src/graphql_type_annotation.rs kind=struct name=GraphQLListTypeAnnotation prefix="pub"
 #[verifier::external_body]
 pub struct TypeAnnotationDeclaration { p: core::marker::PhantomData<u8> }
 impl TypeAnnotationDeclaration {
@@ -727,9 +748,8 @@ pub fn parse_type_annotation(tokens: &mut PeekableLexer<'_>) -> (r: DiagnosticRe
 //@end
 
 //@fn rel=crates/isograph_lang_parser/src/parse_iso_literal.rs name=parse_variable_definitions vis=pub ret=r serves=C07
-//@rw R4
+//@rw R19 R4
 //@hsub "tokens: &mut PeekableLexer," => "tokens: &mut PeekableLexer<'_>,"
-//@sub "Ok\(vec!\[\]\)" => "Ok(Vec::new())" n=1
 //@contract
     requires old(tokens).inv(),
     ensures
@@ -862,6 +882,51 @@ pub fn parse_optional_description(tokens: &mut PeekableLexer<'_>) -> (r: Option<
     requires string_byte_len(&iso_literal_text) <= u32::MAX,
 //@end
 
+// ---- alternatives of parse_non_constant_value / parse_type_annotation ----------------------
+// Each alternative is a closure `|| { .. }` capturing `tokens` mutably, which Verus does not
+// accept; the closure's BLOCK is extracted verbatim as the body of a function of the cursor.
+// Dropped: the `from_control_flow(|| { to_control_flow(|| ALT)?; .. })` glue (first alternative
+// that returns Ok wins; an Err falls through to the next one with the cursor where it is).
+
+/// alternative 1 of parse_non_constant_value: `$name`
+pub fn non_constant_value_alt_variable(tokens: &mut PeekableLexer<'_>) -> (r: Result<WithEmbeddedLocation<NonConstantValue>, Diagnostic>)
+    requires old(tokens).inv(),
+    ensures final(tokens).inv(), final(tokens).same_literal(old(tokens)), final(tokens).monotone(old(tokens)), //@O C07.O-6_value_alternative_variable_preserves_cursor_invariant
+        r is Ok ==> final(tokens).progressed(old(tokens)),
+{
+//@expr rel=crates/isograph_lang_parser/src/parse_iso_literal.rs fn=parse_non_constant_value start="to_control_flow::<_, Diagnostic>(|| {" skip="to_control_flow::<_, Diagnostic>(||" nth=0 block=non_constant_value_alt_variable serves=C07 sub="name\.map\(NonConstantValue::Variable\)=>name.map(|v| NonConstantValue::Variable(v))" rw=R4
+}
+
+/// alternative 4 of parse_non_constant_value: `{ key: value, .. }` — its span joins the
+/// opening brace with the closing one (Span::join needs left.start <= right.end)
+#[verifier::exec_allows_no_decreases_clause]
+pub fn non_constant_value_alt_object(tokens: &mut PeekableLexer<'_>) -> (r: Result<WithEmbeddedLocation<NonConstantValue>, Diagnostic>)
+    requires old(tokens).inv(),
+    ensures final(tokens).inv(), final(tokens).same_literal(old(tokens)), final(tokens).monotone(old(tokens)), //@O C07.O-6_value_alternative_object_preserves_cursor_invariant
+        r is Ok ==> final(tokens).progressed(old(tokens)) && located_from(r->Ok_0, old(tokens)), //@O C07.O-6_object_literal_span_well_formed
+{
+//@expr rel=crates/isograph_lang_parser/src/parse_iso_literal.rs fn=parse_non_constant_value start="to_control_flow::<_, Diagnostic>(|| {" skip="to_control_flow::<_, Diagnostic>(||" nth=3 block=non_constant_value_alt_object serves=C07 rw=R16,R4
+}
+
+/// alternative 1 of parse_type_annotation (inside with_embedded_location_result): `Name` / `Name!`
+pub fn type_annotation_alt_named(tokens: &mut PeekableLexer<'_>) -> (r: Result<GraphQLTypeAnnotation, Diagnostic>)
+    requires old(tokens).inv(),
+    ensures final(tokens).inv(), final(tokens).same_literal(old(tokens)), final(tokens).monotone(old(tokens)), //@O C07.O-6_type_alternative_named_preserves_cursor_invariant
+        r is Ok ==> final(tokens).progressed(old(tokens)), //@O C07.O-6_type_alternative_named_consumes_a_token
+{
+//@expr rel=crates/isograph_lang_parser/src/parse_iso_literal.rs fn=parse_type_annotation start="to_control_flow::<_, Diagnostic>(|| {" skip="to_control_flow::<_, Diagnostic>(||" nth=0 block=type_annotation_alt_named serves=C07 rw=R4
+}
+
+/// alternative 2 of parse_type_annotation: `[Type]` / `[Type]!`
+#[verifier::exec_allows_no_decreases_clause]
+pub fn type_annotation_alt_list(tokens: &mut PeekableLexer<'_>) -> (r: Result<GraphQLTypeAnnotation, Diagnostic>)
+    requires old(tokens).inv(),
+    ensures final(tokens).inv(), final(tokens).same_literal(old(tokens)), final(tokens).monotone(old(tokens)), //@O C07.O-6_type_alternative_list_preserves_cursor_invariant
+        r is Ok ==> final(tokens).progressed(old(tokens)), //@O C07.O-6_type_alternative_list_consumes_a_token
+{
+//@expr rel=crates/isograph_lang_parser/src/parse_iso_literal.rs fn=parse_type_annotation start="to_control_flow::<_, Diagnostic>(|| {" skip="to_control_flow::<_, Diagnostic>(||" nth=1 block=type_annotation_alt_list serves=C07 rw=R4
+}
+
 // ---- string / block-string callbacks of the logos lexer (token_kind.rs) ---------------
 /// `i` is a char boundary of `s` (logos::Lexer::bump panics "Invalid Lexer bump" otherwise)
 pub uninterp spec fn boundary(s: &str, i: nat) -> bool;
@@ -929,7 +994,6 @@ pub uninterp spec fn fits_i64(s: &str) -> bool;
 pub struct ParseIntError { p: core::marker::PhantomData<u8> }
 #[verifier::external_body]
 pub fn parse_i64(s: &str) -> (r: Result<i64, ParseIntError>) ensures (r is Ok) == fits_i64(s) { unimplemented!() }
-pub enum NonConstantValue { Integer(i64), Other }
 pub struct Location { pub embedded: EmbeddedLocation }
 impl Diagnostic {
     #[verifier::external_body]
